@@ -67,9 +67,15 @@ def d3_2(ctx):
 
 
 def _assembly_loop(ctx, fn, over):
-    for n in fn.node.body:
-        if isinstance(n, ast.For) and isinstance(n.iter, ast.Call) and call_name(n.iter) == "enumerate" and atom_name(n.iter.args[0]) == over and any(isinstance(c, ast.Call) and attr_path(c.func) == "results.append" for c in walk(n)):
-            return n
+    """The outermost loop of the method that ranges over the requests (its iterable mentions `over`: enumerate, zip, the
+    name itself) and appends to `results`."""
+    for n in walk(fn.node):
+        if isinstance(n, ast.For) and any(isinstance(x, ast.Name) and x.id == over for x in walk(n.iter)) and any(isinstance(c, ast.Call) and attr_path(c.func) == "results.append" for c in walk(n)):
+            p = getattr(n, "_parent", None)
+            while p is not None and not isinstance(p, (ast.For, ast.While)):
+                p = getattr(p, "_parent", None)
+            if p is None:
+                return n
     return None
 
 
@@ -81,7 +87,11 @@ def d3_3(ctx):
         lp = _assembly_loop(ctx, fn, over)
         key = ckey(fn, "one-append")
         if lp is None:
-            ctx.violation(key, fn.node, f"no assembly loop over enumerate({over}) appending to results")
+            # assembled some other way (a comprehension, a helper): one result per request, in order, is then decided by the witness
+            # request lists alone (D1.14 / D3.11: several requests, failed ones among them)
+            from .driver import d1_14, d3_11
+
+            (d1_14 if name == "read" else d3_11)(ctx)
             continue
         g = ctx.cfg(fn.node)
         header = g.nodes_of(lp)[0]
